@@ -2,6 +2,7 @@ package chainh
 
 import (
 	"fmt"
+	"github.com/btcsuite/btcd/blockchain"
 	"math/rand"
 	"os"
 	"sort"
@@ -179,6 +180,23 @@ func replayPath(ctx *vrun.Ctx, prop string, f *Factory, path []tlc.Step, cache u
 			ctx.AddExtra("model_drift_tip", 1)
 		}
 
+		// a block whose whole ancestry is flawless and not manually invalidated (spec: NoPoison)
+		cleanBlock := func(b int) bool {
+			for _, x := range f.Sc.Path(b) {
+				if f.Sc.Flaw[x] != "none" || contains(s["manual"], x) {
+					return false
+				}
+			}
+			return true
+		}
+		if prop == "C01" || prop == "C02" {
+			for _, t := range node.Chain.ChainTips() {
+				if id := f.ID(&t.BlockHash); t.Status == blockchain.StatusInvalid && id > 0 && cleanBlock(id) {
+					viol("valid-block-marked-invalid:"+op, fmt.Sprintf("%s: ChainTips lists block %d as invalid although it and all its ancestors are valid and not manually invalidated", where, id))
+					return nil
+				}
+			}
+		}
 		switch prop {
 		case "C02":
 			if !contains(exp.F("tips"), tip) {
